@@ -135,6 +135,31 @@ def build(cfg, values=None):
                 KG = p1.calc_kG0(c=c0, nx=nq, ny=nq, silent=True).todict()
                 for k, v in sorted(KG.items()):
                     obs.append(('kG-numeric-zero-state[%d,%d]' % k, v, 0))
+        elif rel == 'g':
+            # the numbers of integration points given as ARGUMENTS describe the same computation as the same numbers stored in
+            # the panel attributes nx, ny (state-based k0, kG0, internal force at a symbolic state)
+            model = cfg['model']
+            ax, ay = cfg['nxy']
+            p1 = common(ctx.new_panel(model, m, n))
+            p1.Nxx_cte = p1.Nyy_cte = p1.Nxy_cte = None
+            size = 3 * m * n
+            c = np.array([ctx.V('c%d' % k) for k in range(size)], dtype=object)
+            p1.calc_k0(silent=True)
+            p1.nx, p1.ny = ay + 1, ax + 2
+            A = {'k0': p1.calc_k0(c=c, nx=ax, ny=ay, NLgeom=True, silent=True).todict(),
+                 'kG0': p1.calc_kG0(c=c, nx=ax, ny=ay, NLgeom=True, silent=True).todict(),
+                 'kT': p1.calc_kT(c=c, nx=ax, ny=ay, silent=True).todict()}
+            fA = p1.calc_fint(c, nx=ax, ny=ay, silent=True)
+            p1.nx, p1.ny = ax, ay
+            B = {'k0': p1.calc_k0(c=c, NLgeom=True, silent=True).todict(),
+                 'kG0': p1.calc_kG0(c=c, NLgeom=True, silent=True).todict(),
+                 'kT': p1.calc_kT(c=c, silent=True).todict()}
+            fB = p1.calc_fint(c, silent=True)
+            for nm in ('k0', 'kG0', 'kT'):
+                for k in sorted(set(A[nm]) | set(B[nm])):
+                    obs.append(('%s-arguments-vs-attributes[%d,%d]' % (nm, k[0], k[1]), A[nm].get(k, 0), B[nm].get(k, 0)))
+            for k in range(size):
+                obs.append(('fint-arguments-vs-attributes[%d]' % k, fA[k], fB[k]))
         elif rel == 'e':
             model = 'plate'
             p1 = common(ctx.new_panel(model, m, n))
@@ -231,6 +256,7 @@ def configs(tier, seed):
             out.append({'rel': 'b', 'm': 5, 'n': 4, 'which': which, 'group': '(b) cylinder(1/r=0)=plate:%s' % which})
     for model in ('plate', 'cpanel'):
         out.append({'rel': 'd', 'm': 2, 'n': 2, 'which': 'k0', 'model': model, 'nq': 8, 'group': '(d) numeric=analytic:%s' % model, 'kG': True})
+        out.append({'rel': 'g', 'm': 1, 'n': 2, 'which': 'k0', 'model': model, 'nxy': (1, 2), 'group': '(g) integration points as arguments = as attributes:%s' % model})
         out.append({'rel': 'd', 'm': 2, 'n': 1, 'which': 'k0', 'model': model, 'nq': 8, 'ortho': True, 'group': '(d) numeric=analytic force_orthotropic:%s' % model})
         if not quick:
             out.append({'rel': 'd', 'm': 3, 'n': 3, 'which': 'k0', 'model': model, 'nq': 8, 'group': '(d) numeric=analytic:%s' % model, 'timeout_ms': 300000})
